@@ -29,6 +29,14 @@ func (c *countFS) Stat(name string) (fs.FileInfo, error) { return c.m.Stat(name)
 
 var c15Files = []string{"page.vuego", "comp.vuego", "layouts/lay.vuego"}
 
+// in the default-layout scenario the page names no layout and file 2 is layouts/base.vuego
+func c15Name(f int, defaultScenario bool) string {
+	if f == 2 && defaultScenario {
+		return "layouts/base.vuego"
+	}
+	return c15Files[f]
+}
+
 func c15Content(f, cid int, valid, layoutScenario bool) string {
 	if !valid {
 		return "---\nv: [unclosed\n---\n<p>broken" + fmt.Sprint(cid) + "</p>"
@@ -71,6 +79,9 @@ func (o c15Op) Coq() string {
 	if e == "RenderFile" {
 		e = "TplPlain"
 	}
+	if e == "RenderFileDefault" {
+		e = "TplDefault"
+	}
 	if e == "RenderFileLayout" {
 		e = "TplLayout"
 	}
@@ -102,16 +113,16 @@ func c15Render(cfs fs.FS, vue *vuego.Vue, tpl vuego.Template, entry string) (out
 		err = vue.Render(&buf, "page.vuego", map[string]any{})
 	case "VueFragment":
 		err = vue.RenderFragment(&buf, "page.vuego", map[string]any{})
-	case "TplPlain", "TplLayout":
+	case "TplPlain", "TplLayout", "TplDefault":
 		err = tpl.Load("page.vuego").Render(context.Background(), &buf)
-	case "RenderFile", "RenderFileLayout":
+	case "RenderFile", "RenderFileLayout", "RenderFileDefault":
 		err = tpl.RenderFile(context.Background(), &buf, "page.vuego")
 	}
 	return buf.String(), err, ""
 }
 
 func c15Project(out string, err error, reads map[string]int) Obs {
-	rd := L(N(reads["page.vuego"]), N(reads["comp.vuego"]), N(reads["layouts/lay.vuego"]))
+	rd := L(N(reads["page.vuego"]), N(reads["comp.vuego"]), N(reads["layouts/lay.vuego"]+reads["layouts/base.vuego"]))
 	if err != nil {
 		return L(A("err"), rd)
 	}
@@ -133,7 +144,7 @@ func init() { streams["C15"] = runC15 }
 func runC15(r *Run) {
 	r.Imports = []string{"Model.Cache"}
 	r.Rule("histories of {edit page/component/layout with a new version and an mtime that advances, stays equal, goes backwards or is zero; delete; recreate; make invalid (bad front-matter); " +
-		"render via Vue.Render, Vue.RenderFragment, Load().Render, RenderFile, with and without a layout} on one long-lived engine over an in-memory FS; " +
+		"render via Vue.Render, Vue.RenderFragment, Load().Render, RenderFile, with a named layout, without any, and with the default layouts/base.vuego being created, edited and deleted between renders} on one long-lived engine over an in-memory FS; " +
 		"after every render the output is compared with a newly created engine (oracle, on histories inside the freshness guard) and with the model's prediction of loaded versions and file reads; " +
 		"non-trivial: at least one edit or delete between two renders")
 	r.Assume("freshness is claimed (oracle) only for histories in which every file carries a non-zero mtime and no edit re-uses the mtime the cache remembers; outside that guard only the model comparison applies")
@@ -147,6 +158,8 @@ func runC15(r *Run) {
 	for h := 0; h < nhist; h++ {
 		engine := rr.Intn(2) // 0 = Vue, 1 = Template
 		layoutScenario := engine == 1 && rr.Bool()
+		// the page names no layout and layouts/base.vuego comes and goes: the default layout applies exactly while it exists
+		defaultScenario := engine == 1 && !layoutScenario && rr.Bool()
 		guardedHist := rr.Intn(10) < 7
 		cfs := &countFS{m: fstest.MapFS{}, reads: map[string]int{}}
 		vue := vuego.NewVue(cfs)
@@ -175,13 +188,13 @@ func runC15(r *Run) {
 		}
 		// initial files
 		ops = append(ops, edit(0, true), edit(1, true))
-		if layoutScenario {
+		if layoutScenario || (defaultScenario && rr.Bool()) {
 			ops = append(ops, edit(2, true))
 		}
 		n := 3 + rr.Intn(maxLen-2)
 		for i := 0; i < n; i++ {
 			nf := 2
-			if layoutScenario {
+			if layoutScenario || defaultScenario {
 				nf = 3
 			}
 			switch x := rr.Intn(10); {
@@ -191,6 +204,8 @@ func runC15(r *Run) {
 					e = Pick(rr, []string{"VueRender", "VueRender", "VueFragment"})
 				} else if layoutScenario {
 					e = Pick(rr, []string{"TplLayout", "RenderFileLayout"})
+				} else if defaultScenario {
+					e = Pick(rr, []string{"TplDefault", "RenderFileDefault"})
 				} else {
 					e = Pick(rr, []string{"TplPlain", "RenderFile"})
 				}
@@ -203,7 +218,11 @@ func runC15(r *Run) {
 				ops = append(ops, c15Op{kind: "delete", f: rr.Intn(nf)})
 			}
 		}
-		ops = append(ops, c15Op{kind: "render", entry: map[bool]string{true: "TplLayout", false: map[int]string{0: "VueRender", 1: "TplPlain"}[engine]}[layoutScenario]})
+		lastEntry := map[bool]string{true: "TplLayout", false: map[int]string{0: "VueRender", 1: "TplPlain"}[engine]}[layoutScenario]
+		if defaultScenario {
+			lastEntry = "TplDefault"
+		}
+		ops = append(ops, c15Op{kind: "render", entry: lastEntry})
 		// run
 		var obs []Obs
 		remembered := map[int]int{} // mtime the cache may remember per file (over-approximation: every mtime ever rendered with)
@@ -223,10 +242,10 @@ func runC15(r *Run) {
 					// distinct model times are distinct instants 300 ms apart: several of them fall into the same second
 					mt = time.Unix(100000, 0).Add(time.Duration(o.t) * 300 * time.Millisecond)
 				}
-				cfs.m[c15Files[o.f]] = &fstest.MapFile{Data: []byte(c15Content(o.f, o.cid, o.valid, layoutScenario)), ModTime: mt}
+				cfs.m[c15Name(o.f, defaultScenario)] = &fstest.MapFile{Data: []byte(c15Content(o.f, o.cid, o.valid, layoutScenario)), ModTime: mt}
 				editsSinceRender = true
 			case "delete":
-				delete(cfs.m, c15Files[o.f])
+				delete(cfs.m, c15Name(o.f, defaultScenario))
 				editsSinceRender = true
 			case "render":
 				if editsSinceRender && renders > 0 {
@@ -257,10 +276,10 @@ func runC15(r *Run) {
 			}
 		}
 		_ = remembered
-		r.Count(fmt.Sprintf("engine:%d layout:%v", engine, layoutScenario))
+		r.Count(fmt.Sprintf("engine:%d layout:%v default-layout:%v", engine, layoutScenario, defaultScenario))
 		coq := "{| c_ops := " + coqList(ops, c15Op.Coq) + " |}"
 		tags := map[string]string{"guarded": fmt.Sprint(inGuard)}
-		r.Case("cache-history", coq, L(obs...), map[string]any{"history": descC15(ops), "layout_scenario": layoutScenario}, tags, nontrivial)
+		r.Case("cache-history", coq, L(obs...), map[string]any{"history": descC15(ops), "layout_scenario": layoutScenario, "default_layout_scenario": defaultScenario}, tags, nontrivial)
 	}
 }
 
